@@ -658,19 +658,23 @@ theorem requiredNonOneof_filter (o : List Char) (fs : List Field) :
     (requiredNonOneof fs).filter (inOneof o) = [] := by
   rw [List.filter_eq_nil_iff]
   intro f hf
-  simp only [requiredNonOneof, List.mem_filter, Bool.and_eq_true, Option.isNone_iff_eq_none] at hf
-  simp [inOneof, hf.2.2]
+  simp only [requiredNonOneof, List.mem_filter, Bool.and_eq_true, Bool.or_eq_true, Option.isNone_iff_eq_none] at hf
+  rcases hf.2.2 with h | h
+  · simp [inOneof, h]
+  · simp [inOneof, h]
 
 end Aux
 
-/-- `request_has_required`: every REQUIRED field outside a oneof is handled according to its type —
+/-- `request_has_required`: every REQUIRED field outside a real oneof (proto3-`optional` fields included,
+    fix 1704548) is handled according to its type —
     a scalar gets exactly its mock value under its own name; an enum its last value; a message-typed
     field gets EXACTLY the default request of its message, prefixed with the field name (all of its
     entries are entries of the request).  So a required message field is populated iff the default
     request of its message is non-empty (`required_message_unpopulated_counterexample` is the other case). -/
 theorem request_has_required (env : Env) (fuel : Nat) (m : Msg) (pre : List (List Char))
     (es : List Entry) (h : requestObject env (fuel + 1) m pre = .ok es)
-    (f : Field) (hf : f ∈ m.fields) (hreq : f.required = true) (hone : f.oneof = none) :
+    (f : Field) (hf : f ∈ m.fields) (hreq : f.required = true)
+    (hone : f.oneof = none ∨ f.proto3Optional = true) :
     (∀ t, f.kind = .prim t → ⟨pre ++ [f.name], primMockValue f t⟩ ∈ es) ∧
     (∀ vs v, f.kind = .enum vs → vs.getLast? = some v →
         ⟨pre ++ [f.name], if f.repeated then .many [.str v] else .one (.str v)⟩ ∈ es) ∧
@@ -680,7 +684,7 @@ theorem request_has_required (env : Env) (fuel : Nat) (m : Msg) (pre : List (Lis
   have hmem : f ∈ requestFields m := by
     unfold requestFields requiredNonOneof
     apply List.mem_append_right
-    simp [List.mem_filter, hf, hreq, hone]
+    rcases hone with hone | hone <;> simp [List.mem_filter, hf, hreq, hone]
   simp only [requestObject] at h
   refine ⟨?_, ?_, ?_⟩
   · intro t hk
@@ -914,10 +918,11 @@ theorem oneof_first_member_message_unpopulated_counterexample :
         ⟨"isbn".toList, .prim .str, false, false, some "kind".toList, false⟩]⟩ []).toOption = some [] := by
   decide +kernel
 
-/-- a REQUIRED proto3-`optional` field is dropped: it sits in a synthetic oneof, so it is neither a
-    "required non-oneof" field nor a selected oneof member (replayed; known finding). -/
-theorem required_proto3_optional_dropped_counterexample :
-    (requestObject [] 5 ⟨[⟨"etag".toList, .prim .str, false, true, some "_etag".toList, true⟩]⟩ []).toOption = some [] := by
+/-- regression (fix 1704548; before it the result was `[]`): a REQUIRED proto3-`optional` field — which sits
+    in a synthetic oneof — is populated with its mock value. -/
+theorem required_proto3_optional_populated :
+    (requestObject [] 5 ⟨[⟨"etag".toList, .prim .str, false, true, some "_etag".toList, true⟩]⟩ []).toOption
+      = some [⟨["etag".toList], .one (.str "etag_value".toList)⟩] := by
   decide +kernel
 
 /-! ### request transformation -/
@@ -1070,21 +1075,24 @@ theorem sample_id_collision_counterexample :
     ∀ sp ∈ specs, sampleId (fun _ => "8cb92ea9".toList) specs sp = sp.regionTag ++ "_8cb92ea9".toList := by
   decide +kernel
 
-/-- `called_method_matches_client`: for an RPC whose lower-cased name is not a Python keyword and that is
-    not hidden by selective generation, the method the sample calls is the method the metadata names
-    (and the client defines). -/
-theorem called_method_matches_client (snake : List Char → List Char) (kw : List (List Char)) (rpc : List Char)
-    (h : kw.contains (lowerAscii rpc) = false) :
-    calledMethod snake rpc false = metadataMethod snake kw rpc false := by
-  have hm : ¬ lowerAscii rpc ∈ kw := by simpa using h
-  simp [calledMethod, metadataMethod, clientMethodName, hm]
+/-- `called_method_matches_client` (unconditional since fix cb7ea26): for every RPC that is not hidden by
+    selective generation — keyword names included — the method the sample calls is the method the metadata
+    names and the client defines. -/
+theorem called_method_matches_client (snake : List Char → List Char) (cmn : List Char → Bool → List Char)
+    (rpc : List Char) :
+    calledMethod snake cmn rpc false = metadataMethod snake cmn rpc false := rfl
 
-example : (Pinned.pyKeywords.map String.toList).contains (lowerAscii "GetBook".toList) = false := by decide +kernel
+/-- regression (§9-F8, fix cb7ea26; before it the sample called `client.import`): for `Import` both the call
+    and the client method are `import_`, through the translated `to_snake_case` / `client_method_name`. -/
+theorem keyword_rpc_called_method :
+    calledMethod Pinned.Funcs.to_snake_case Pinned.Funcs.client_method_name "Import".toList false = "import_".toList ∧
+    metadataMethod Pinned.Funcs.to_snake_case Pinned.Funcs.client_method_name "Import".toList false = "import_".toList := by
+  decide +kernel
 
-/-- …and for `Import` it is not (§9-F8): the sample calls `client.import`, the client has `import_`. -/
-theorem keyword_rpc_called_method_counterexample :
-    calledMethod Pinned.Funcs.to_snake_case "Import".toList false = "import".toList ∧
-    metadataMethod Pinned.Funcs.to_snake_case (Pinned.pyKeywords.map String.toList) "Import".toList false = "import_".toList := by
+/-- hidden (internal) methods are still called as `_<snake(rpc)>`; for non-keyword names that is the
+    client's method too (the keyword + internal combination is the remaining gap of `render_method_name`). -/
+example : calledMethod Pinned.Funcs.to_snake_case Pinned.Funcs.client_method_name "GetBook".toList true =
+    metadataMethod Pinned.Funcs.to_snake_case Pinned.Funcs.client_method_name "GetBook".toList true := by
   decide +kernel
 
 example : sampleFile Pinned.Funcs.to_snake_case "lib_v1_generated_Library_GetIAMPolicy2_sync".toList
